@@ -5,6 +5,7 @@ package main
 
 import (
 	"fmt"
+	"go/token"
 	"go/types"
 	"regexp"
 	"sort"
@@ -21,7 +22,7 @@ func init() {
 	register(&Rule{ID: "C01.d", Doc: "every newly created chunk is enqueued exactly once on every non-error path; every dequeued chunk is finalised", Floor: 14, Run: c01d})
 	register(&Rule{ID: "C01.e", Doc: "return-point threading of if / while / do-while / break / continue / split (value-origin templates)", Floor: 30, Run: c01e})
 	register(&Rule{ID: "C01.f", Doc: "branch protocol: goto iff dest is neither next nor 'leave', terminator iff 'leave', fall through iff dest is next", Floor: 14, Run: c01f})
-	register(&Rule{ID: "C01.h", Doc: "the parsers of if / while / do-while keep every condition, body and branch they parse", Floor: 5, Run: c01h})
+	register(&Rule{ID: "C01.h", Doc: "parsers keep what they parse: every AST piece returned by a parse call is stored, appended, handed on or returned on every successful path", Floor: 30, Run: c01h})
 	register(&Rule{ID: "C01.g", Doc: "end/return early exit only as last statement; terminator kind follows the command name", Floor: 3, Run: c01g})
 }
 
@@ -1009,17 +1010,19 @@ func c01g(c *Ctx) {
 // iteration or to the return. A branch that is parsed and then left out (because it looks empty,
 // say) takes its condition with it: later branches would no longer be guarded by it.
 func c01h(c *Ctx) {
-	for _, name := range []string{"parser.Parser.parseIfStatement", "parser.Parser.parseWhileStatement", "parser.Parser.parseDoWhileStatement", "parser.Parser.parseConditionExpression"} {
-		fn := c.Fn(name)
-		if fn == nil {
-			continue
+	var fns []*ssa.Function
+	for _, f := range c.W.FuncsOf("parser") {
+		if !isTestFunc(c.W, f) && len(f.Blocks) > 0 {
+			fns = append(fns, f)
 		}
+	}
+	for _, fn := range fns {
 		n := 0
 		for _, ci := range callsIn(fn) {
 			g := callee(ci)
 			call, isCall := ci.(*ssa.Call)
-			if g == nil || !isCall || !c.W.InRepo(g) || c.W.PkgShort(g) != "parser" {
-				continue
+			if g == nil || !isCall || !c.W.InRepo(g) || c.W.PkgShort(g) != "parser" || c.T(fn).purity(g) >= purReadOnly {
+				continue // (a function that changes nothing parses nothing)
 			}
 			res := g.Signature.Results()
 			if res.Len() == 0 || !isASTType(res.At(0).Type()) {
@@ -1055,11 +1058,29 @@ func c01h(c *Ctx) {
 						}
 					case *ssa.Return:
 						uses[y] = true
-					case *ssa.MakeInterface, *ssa.ChangeType, *ssa.ChangeInterface, *ssa.Phi:
+					case *ssa.MapUpdate:
+						if y.Value == x {
+							uses[y] = true
+						}
+					case *ssa.MakeInterface, *ssa.ChangeType, *ssa.ChangeInterface, *ssa.Phi, *ssa.Extract:
 						mark(y.(ssa.Value), depth+1)
 					case ssa.CallInstruction:
-						// handing the piece to a function that only looks at it is no use
+						// handing the piece to a function that only looks at it is no use; one that
+						// builds something around it (a constructor) passes it on in its result
 						if h := callee(y); h != nil && c.W.InRepo(h) && c.T(fn).purity(h) >= purReadOnly {
+							passes := false
+							for _, a := range y.Common().Args {
+								passes = passes || a == x
+							}
+							if yv, isV := r.(ssa.Value); isV && passes {
+								res := h.Signature.Results()
+								for i := 0; i < res.Len(); i++ {
+									if _, basic := res.At(i).Type().Underlying().(*types.Basic); !basic {
+										mark(yv, depth+1)
+										break
+									}
+								}
+							}
 							continue
 						}
 						for _, a := range y.Common().Args {
@@ -1092,7 +1113,50 @@ func c01h(c *Ctx) {
 			}
 			isUse := func(in ssa.Instruction) bool { return uses[in] }
 			head := loopHeaders(fn)[call.Block()]
-			_, skip := existsPath(pathQuery{from: after(call), avoid: isUse, edgeOK: notErrorEdge, target: func(in ssa.Instruction) bool {
+			// a piece that is nil is nothing to keep: the side of `piece != nil` on which it is nil is not followed
+			alias := map[ssa.Value]bool{}
+			var addAlias func(x ssa.Value, depth int)
+			addAlias = func(x ssa.Value, depth int) {
+				if alias[x] || depth > 3 {
+					return
+				}
+				alias[x] = true
+				if x.Referrers() == nil {
+					return
+				}
+				for _, r := range *x.Referrers() {
+					switch y := r.(type) {
+					case *ssa.MakeInterface, *ssa.ChangeType, *ssa.ChangeInterface, *ssa.Phi:
+						addAlias(y.(ssa.Value), depth+1)
+					}
+				}
+			}
+			addAlias(v, 0)
+			edgeOK := func(b *ssa.BasicBlock, succ int) bool {
+				if !notErrorEdge(b, succ) {
+					return false
+				}
+				if ifi, ok := b.Instrs[len(b.Instrs)-1].(*ssa.If); ok {
+					if bo, ok := ifi.Cond.(*ssa.BinOp); ok && (bo.Op == token.NEQ || bo.Op == token.EQL) {
+						x, y := bo.X, bo.Y
+						if isNilConst(x) {
+							x, y = y, x
+						}
+						if isNilConst(y) && alias[x] {
+							nilSide := 1 // `!= nil`: false branch
+							if bo.Op == token.EQL {
+								nilSide = 0
+							}
+							return succ != nilSide
+						}
+					}
+				}
+				return true
+			}
+			_, skip := existsPath(pathQuery{from: after(call), avoid: isUse, edgeOK: edgeOK, target: func(in ssa.Instruction) bool {
+				if uses[in] {
+					return false
+				}
 				if r, ok := in.(*ssa.Return); ok {
 					return isSuccessReturn(r)
 				}
